@@ -138,7 +138,7 @@ class Nc:
         while len(cases) < n:
             fmt = rng.choice(['NETCDF4', 'NETCDF4', 'NETCDF3_CLASSIC'])
             pool = gen_pool(rng, fmt)
-            steps = []; names = []
+            steps = []; names = []; dims_in_file = set()
             nsteps = rng.randint(1, 4 if tier == 'quick' else 7)
             for si in range(nsteps):
                 kind = rng.choice(['write_ds', 'write_ds', 'append_var', 'handle_set']) if si else rng.choice(['write_ds', 'write_ds', 'write_ds', 'append_var'])
@@ -154,15 +154,25 @@ class Nc:
                         extra = gen_pool(rng, fmt, 1, avoid=list(pool)); pool.update(extra)
                         vars_.append(['n%d' % si, gen_nc_array(rng, pool, stats, fmt, dims=list(extra))])
                     names += [k for k, _ in vars_]
+                    if mode == 'w': dims_in_file = set()
+                    if mode == 'a' and rng.random() < 0.5:
+                        for k_, a_ in vars_:
+                            a_['axattrs'] = [dict(at, comment='appended') if d in dims_in_file else at for d, at in zip(a_['dims'], a_['axattrs'])]
+                    for k_, a_ in vars_: dims_in_file.update(a_['dims'])
                     steps.append(['write_ds', {'vars': vars_, 'attrs': nc_meta(rng)}, mode])
                 else:
                     name = [k for k in ['a', 'b', 'c', 'v', 'k', 'p', 'q', 'r', 's', 'g', 'h'] if k not in names and k not in pool][0]
                     if rng.random() < 0.3:
                         extra = gen_pool(rng, fmt, 1, avoid=list(pool)); pool.update(extra)
                     arr = gen_nc_array(rng, pool, stats, fmt)
+                    if rng.random() < 0.5 and arr['dims']:
+                        # the appended array carries its own axis metadata: what the file already holds for an existing dimension must stay
+                        arr['axattrs'] = [dict(nc_meta(rng, allow_list=False), comment='appended') if d in dims_in_file else at for d, at in zip(arr['dims'], arr['axattrs'])]
+                        stats['nc_append_own_axis_meta'][str(any(d in dims_in_file for d in arr['dims']))] += 1
                     names.append(name)
                     if kind == 'append_var': steps.append(['append_var', name, arr, 'a+' if si == 0 or rng.random() < 0.5 else 'a'])
                     else: steps.append(['handle_set', name, arr])
+                    dims_in_file.update(arr['dims'])
             cases.append({'fmt': fmt, 'steps': steps})
         return cases
 
